@@ -211,6 +211,17 @@ CaseResult run_copy(const RunCtx &ctx, TapeReader &t, unsigned size_hint, S subj
     std::vector<CopyOp> ops;
     // weights favour the interesting sequence: copy/move, destroy source, scribble, query
     static const unsigned w[] = {5, 3, 4, 3, 5, 3, 3, 6};
+    if (big_other) { // overwrite the large value with the small one first (assignment must not leave anything of the old content behind)
+        switch (t.below(3)) {
+            case 0: ops.push_back({CopyOp::COPY_ASSIGN, 0, 1, 0}); break;
+            case 1:
+                ops.push_back({CopyOp::COPY_CONSTRUCT, 0, 0, 0});
+                ops.push_back({CopyOp::MOVE_ASSIGN, 2, 1, 0});
+                break;
+            default: break;
+        }
+        ops.push_back({CopyOp::QUERY, 0, 0, 0});
+    }
     for (size_t i = 0; i < n_ops; ++i) ops.push_back({(CopyOp::Kind) t.weighted(w), (size_t) t.below(16), (size_t) t.below(16), t.bits(64)});
     ops.push_back({CopyOp::QUERY, 0, 0, 0});
     if (ctx.want_desc) {
